@@ -1,17 +1,20 @@
 """C10 — records convert to Go structs and back without loss (PARTIAL: the truth lives in Go's reflect).
 Theorems: lean/ZygoVerif/Props/C10.lean over Model/ToGo.lean (the walk over an abstract Go type
-descriptor, level by level, for an arbitrary recursive call). Spec: Spec/RecordGo.lean.
-Tie: channel `togo` — the type descriptors are read from the live types by reflect for every op
-line, real (togo r) / (_method obj Echo: r) results are dumped as canonical trees with pointer-sharing
-classes and compared with the model, with the spec, and with the dump of the generating Go value."""
+descriptor, level by level, for an arbitrary recursive call; the field table with its embed paths for
+every embedding depth) and Model/ToGoHist.lean (histories on shared records: togo / hset / method
+argument / mutating method / read / receiver). Specs: Spec/RecordGo.lean, Spec/RecordGoHist.lean.
+Tie: channels `togo` and `togohist` — the type descriptors are read from the live types by reflect
+for every op line, real (togo r) / (_method obj M: r) results are dumped as canonical trees with
+pointer-sharing classes and compared with the model, with the spec, and with the dump of the
+generating Go value."""
 import json, os, time
 import vcommon as V
 
 META = dict(
-    text="Lean 4 theorems (Props/C10.lean) about an executable model of SexpToGoStructs/fillJsonMap/FillHashFromShadow over an abstract Go type descriptor: a key that names no field (by json tag, name, capitalised name, through embedded structs) or is not a string/symbol fails the conversion whatever else the record holds; every field named by the record ends up holding exactly the converted value when no other pair writes an overlapping path; a record already in the dedup cache converts to the same Go object (pointer and interface targets); scalar kind pairs outside the spec's exact-conversion table are errors and pairs inside it store exactly the spec's value. Each holds for an arbitrary function doing the nested levels, hence for every nesting depth. The descriptor and the model are tied to the real code by the togo channel: reflect-extracted descriptors on every op, exhaustive (field type x value kind) grid over all 11 registered struct types, type-directed random values with sharing/embedding/maps/interfaces, ill-formed stream, each op run three times against Go's random map iteration.",
-    note="PARTIAL. Not proved: the round trip as one theorem (fromGo(toGo r) = complete r) and global cache persistence across arbitrary intermediate conversions — both are covered by correspondence only (impl = model = spec on every generated op). Trusted: Lean kernel; axioms propext/Classical.choice/Quot.sound; Go's reflect (abstracted by descriptors the harness reads from the live types); the canonical dumpers in harness/ch_togo.go and Driver/Togo.lean; differential testing bounds. Record-into-string-field (printed text) and script-only record types stored in interface{} are outside the model. Known finding: a time.Time does not come back from Go (Test018 of the repo pins time:nil).",
-    technique="Lean 4 proof over an abstract reflect descriptor + model/implementation/spec correspondence with reflect-extracted descriptors",
-    design_ref="DESIGN.md §7 C10",
+    text="Lean 4 theorems (Props/C10.lean) about an executable model of SexpToGoStructs/fillJsonMap/FillHashFromShadow/toGoHelper/CallGoMethodFunction over an abstract Go type descriptor. One conversion: a key that names no field (by json tag, name, capitalised name, through embedded structs) or is not a string/symbol fails the conversion whatever else the record holds; every field named by the record ends up holding exactly the converted value when no other pair writes an overlapping path; a record already in the dedup cache converts to the same Go object (pointer and interface targets); scalar kind pairs outside the spec's exact-conversion table are errors and pairs inside it store exactly the spec's value; each holds for an arbitrary function doing the nested levels, hence for every nesting depth. Field table, for EVERY embedding depth: each entry's EmbedPath leads field by field to a declared field with the entry's key and type; no two entries share a path; 'last table entry with the key' is exactly the spec's 'search the declarations from the last to the first through embedded structs' (model = spec for lookups). Histories, for ALL sequences of togo / hset / method calls from any state: the script's records are changed by hset only; a record passed to a Go method is converted from its current fields alone (the answer equals that of a never-converted record with these fields: no stale cache); (togo r) on a record with an attached struct runs the field loop over the current pairs. The descriptor and the models are tied to the real code by two channels: togo (reflect-extracted descriptors on every op, exhaustive field-type x value-kind grid over 16 registered struct types (one with an embedded pointer) with embedding depth 0..4, two embedded siblings, by-value struct slices, pointers/interfaces inside embedded levels; type-directed random values with sharing; ill-formed stream) and togohist (a generated record lives through 2..8 steps: togo, hset of generated well-typed values on any record of the tree, identity method, argument-mutating method, read, receiver call; each op run three times against Go's random map iteration).",
+    note="PARTIAL. Not proved: the round trip as one theorem (fromGo(toGo r) = complete r); the full statement 'every conversion step answers from the current fields only' is REFUTED for (togo r) on a record that already has a struct attached (Props: togo_reflects_current_record_counterexample = keyed known finding: a by-value struct field keeps content the new nested record does not name) and proved for argument conversions and unattached records (togo_reflects_current_record_partial). Unspecified by the property text and accepted either way (spec answer `?`): what a method RECEIVER shows after the record changed since its struct was attached; object identity across conversions. Trusted: Lean kernel; axioms propext/Classical.choice/Quot.sound; Go's reflect (abstracted by descriptors the harness reads from the live types); the canonical dumpers in harness/ch_togo.go and Driver/Togo.lean; the harness's own Touch method and its Lean twin; differential testing bounds. Outside the model: record-into-string-field (printed text), script-only record types in interface{}, hdel, two spellings of one key, cycles, methods mutating their receiver. Known findings: a time.Time does not come back from Go (Test018 pins time:nil); the by-value refill above.",
+    technique="Lean 4 proof over an abstract reflect descriptor (induction on embedding depth, on field lists, on histories) + model/implementation/spec correspondence with reflect-extracted descriptors",
+    design_ref="DESIGN.md §7 C10, §14.4",
 )
 
 
@@ -20,6 +23,28 @@ def strip_world(op):
     a = op.find(" W ")
     b = op.find(" E ", a)
     return op if a < 0 or b < 0 else op[:a] + op[b:]
+
+
+def spec_accepts(impl, spec):
+    """The spec column, step by step (steps joined by ';'): `<tree>` exactly this; `<tree>|err` this
+    value or an error, nothing else (pairs the property does not promise); `?` unspecified by the
+    property text (any outcome). Returns (accepted, lenient answers met, unspecified answers met)."""
+    if spec == "-":
+        return True, 0, 0
+    ia, sa = impl.split(";"), spec.split(";")
+    nl = sum(1 for y in sa if y.endswith("|err"))
+    nu = sum(1 for y in sa if y == "?")
+    if len(ia) != len(sa):
+        return False, nl, nu
+    for x, y in zip(ia, sa):
+        if y == "?":
+            continue
+        if y.endswith("|err"):
+            if x != "err" and x != y[:-4]:
+                return False, nl, nu
+        elif x != y:
+            return False, nl, nu
+    return True, nl, nu
 
 
 def prepare_c10(lean_targets):
@@ -59,42 +84,54 @@ def run(rep):
         "the dedup cache is modelled by value (what the remembered target held when it was cached): exact unless one field is written twice by two spellings of its key",
         "the way back is compared up to record identity (a Go object referenced twice comes back as two equal records)",
         "spec answers of the form <tree>|err mean: exactly this value or an error, nothing else (pairs the property does not promise)",
+        "Model/ToGoHist.lean is hand-written; tied to toGoHelper (jsonmsgp.go), CallGoMethodFunction (callgo.go), HashSet (hashutils.go) by the `togohist` correspondence only; object numbering across conversions is the model's (a conversion from a fresh top object runs in a heap of its own)",
+        "history spec answer `?`: unspecified by the property text (receiver of a method after the record changed since its struct was attached) — any outcome accepted",
+        "the harness methods Echo<T>/Touch<T>/Self and the generic mutation touchStruct (harness/ch_togo_types.go) are trusted to be what Model/ToGoHist.touch says",
     ]
     if not (prep["ok_drv"] and prep["ok_harness"]):
         rep.violation("machinery-failure", {"what": "driver or harness did not build against the current tree",
                       "theorem_or_correspondence": "build of zydrv/zyh", "log": (prep["drv_out"] + prep["harness_out"])[-3000:]}, no_input=True)
         return
     seeds = [rep.seed] if rep.tier == "quick" else [rep.seed, rep.seed + 1, rep.seed + 2]
-    rows, stats = [], {}
-    for sd in seeds:
-        r, st = V.run_channel("togo", sd, rep.tier)
-        rows += r
-        for k, v in st.items():
-            stats[k] = stats.get(k, 0) + v
-    # a lenient spec answer "<tree>|err" is satisfied by exactly <tree> or by err
-    fixed = []
-    lenient = 0
-    for op, impl, model, spec in rows:
-        if spec.endswith("|err"):
-            lenient += 1
-            tree = spec[:-4]
-            spec = impl if impl in (tree, "err") else tree
-        fixed.append((op, impl, model, spec))
-    def nontrivial(op, impl):
-        return not impl.startswith("bad-")
-    bad_spec, bad_model = V.correspondence(rep, "togo", fixed, stats, keyfn=strip_world, nontrivial=nontrivial)
-    ch = rep.coverage["channels"]["togo"]
-    ch["lenient_spec_answers"] = lenient
-    ch["converted_ok"] = sum(1 for r in fixed if r[1].startswith("&") or r[1].startswith("rec:"))
-    ch["errors_expected_and_reported"] = sum(1 for r in fixed if r[1] == "err" and r[3] == "err")
-    ch["nondeterministic_answers"] = sum(1 for r in fixed if r[1].startswith("nondet("))
+    found = False
+    for chan in ("togo", "togohist"):
+        rows, stats = [], {}
+        for sd in seeds:
+            r, st = V.run_channel(chan, sd, rep.tier)
+            rows += r
+            for k, v in st.items():
+                stats[k] = stats.get(k, 0) + v
+        fixed = []
+        lenient = unspecified = 0
+        for op, impl, model, spec in rows:
+            ok, nl, nu = spec_accepts(impl, spec)
+            lenient += nl
+            unspecified += nu
+            if ok and spec != "-":
+                spec = impl
+            fixed.append((op, impl, model, spec))
+        def nontrivial(op, impl):
+            return not impl.startswith("bad-")
+        bad_spec, bad_model = V.correspondence(rep, chan, fixed, stats, keyfn=strip_world, nontrivial=nontrivial)
+        found = found or bool(bad_spec)
+        ch = rep.coverage["channels"][chan]
+        ch["lenient_spec_answers"] = lenient
+        ch["unspecified_step_answers"] = unspecified
+        ch["converted_ok"] = sum(1 for r in fixed if r[1].startswith("&") or r[1].startswith("rec:"))
+        ch["errors_expected_and_reported"] = sum(1 for r in fixed if r[1].split(";")[-1] == "err" and r[3].split(";")[-1] == "err")
+        ch["nondeterministic_answers"] = sum(1 for r in fixed if r[1].startswith("nondet("))
+        if chan == "togohist":
+            ch["steps_executed"] = sum(len(r[1].split(";")) for r in fixed if not r[1].startswith("bad-"))
     for s in rep.coverage["samples"]:
         s["op"] = strip_world(s["op"])[:600]
         for k in ("impl", "model", "spec"):
             s[k] = s[k][:300]
     rep.coverage["exhaustive"] = False
-    rep.coverage["rule"] = ("grid: every field of every registered struct type (11 types) x every value-kind sample (exhaustive over that finite grid); "
-                            "random: a Go value is generated from the reflect type (nesting depth <= 3, shared objects, nil/empty/filled slices and maps, interfaces), "
+    rep.coverage["rule"] = ("togo grid: every field of every registered struct type (16 types, embedding depth 0..4, embedded pointer) x every value-kind sample (exhaustive over that finite grid); "
+                            "togo random: a Go value is generated from the reflect type (nesting depth <= 3, shared objects, nil/empty/filled slices and maps, interfaces), "
                             "its canonical dump is the expectation and the record term is derived from it; ill-formed: unknown fields, non-symbol keys, wrong-kind "
-                            "values, retyped records; an op is non-trivial when the harness could build and run it (answer not bad-*); distinct = distinct op lines")
-    V.proof_break_resolution(rep, bool(bad_spec))
+                            "values, retyped records; togohist: a generated record lives through 2..8 steps (togo / hset of a well-typed generated value on any record of the "
+                            "tree, sharing existing records / record passed to an identity method / to a method that mutates its argument / record read back / record as "
+                            "receiver), templates and random plans, 12% end in an ill-formed update followed by a conversion; every op is executed 3 times on fresh records; "
+                            "an op is non-trivial when the harness could build and run it (answer not bad-*); distinct = distinct op lines")
+    V.proof_break_resolution(rep, found)
